@@ -221,7 +221,7 @@ CLAIM_C33 = dict(
          "dependencies (package, visibility list of PUBLIC / //p/... / //p:all / //p:name entries, test_only) and the experimental "
          "directories. TLC enumerates four bounded profiles (single dependency x every entry kind x every package pair over "
          "packages of <=2 segments from {a, ab}[, b]; the 8 test-flag combinations; two-entry visibility lists; two "
-         "dependencies), checks that the model of CheckDependencyVisibility/CanSee implements the property-level CanDepend, and "
+         "dependencies; thorough adds segment b, two-entry lists over all packages and three dependencies), checks that the model of CheckDependencyVisibility/CanSee implements the property-level CanDepend, and "
          "emits fail/ok/either per case. Each case is rebuilt as real core.BuildTarget objects in a real BuildGraph with a real "
          "BuildState (experimental dirs via configuration) and run through the real target.CheckDependencyVisibility; only "
          "error/no error is compared.",
